@@ -51,7 +51,8 @@ class Term(object):
 
 
 def T(tag, *args):
-    key = (tag, args)
+    # (0 == False in Python: keep integer and boolean constants apart in the intern table)
+    key = (tag, args, isinstance(args[0], bool)) if tag == 'const' and args else (tag, args)
     t = Term._table.get(key)
     if t is None:
         t = Term()
